@@ -53,7 +53,9 @@ func (c *Config) VerifyConfig(schema base.LogSchema) error {
 func (tf *truncateTransform) Transform(record *base.LogRecord) base.FilterResult {
 	value := tf.keyLocator.Get(record.Fields)
 	if len(value) > tf.maxLength+len(tf.suffix) {
-		valueB := util.BytesFromString(value)
+		// work on a copy: the value may be a constant or shared string (e.g. a facility name), which must not be written to
+		valueB := make([]byte, tf.maxLength+len(tf.suffix))
+		copy(valueB, value[:tf.maxLength])
 
 		// truncate and clean up before the maxLength in case of UTF-8 sequences cut in the middle
 		valueTrimmed := util.CleanUTF8(valueB[:tf.maxLength])
